@@ -6,6 +6,29 @@ import a4_twin
 from vlib.core import ob
 
 
+def _polarity_free(c):
+    """one key for a predicate and its negation: integer comparisons are brought to ==, < (operands ordered by text)"""
+    import re
+    m = re.match(r"^\((.*?)(<=|>=|!=|==|<|>)(.*)\)$", c)
+    if not m or c.count("(") != c.count(")"):
+        return c
+    l, op, r = m.group(1), m.group(2), m.group(3)
+    # balanced split only
+    if l.count("(") != l.count(")") or r.count("(") != r.count(")"):
+        return c
+    if op in ("!=",):
+        op = "=="
+    elif op == ">=":
+        op = "<"            # !(l >= r) is l < r
+    elif op == "<=":
+        l, r, op = r, l, "<"   # !(l <= r) is l > r, i.e. r < l
+    elif op == ">":
+        l, r, op = r, l, "<"
+    if op == "==" and l > r:
+        l, r = r, l
+    return "(%s%s%s)" % (l, op, r)
+
+
 def conds_of(X, fn):
     inline = X.collect_inline(fn)
     ren, used = {}, set()
@@ -20,7 +43,7 @@ def conds_of(X, fn):
             if any(tok in c for tok in ("L0", "L1", "L2", "L3", "ptr", "header_size_bytes", "end_ptr", "bytes")):
                 return
             c = c[1:] if c.startswith("!") else c
-            out.add(c)
+            out.add(_polarity_free(c))
     walk(fn["body"], v)
     return out
 
